@@ -61,13 +61,13 @@ def main(chk):
     # ---- the isEmptyValue pair: each build's helper against its own model ----
     for tags, label in (('verif', 'unsafe'), ('verif codec.safe', 'safe')):
         exe = os.path.join(chk.bdir, 'c05e.' + label)
-        rc, o = vlib.sh(['go', 'build', '-tags', tags, '-o', exe, './cmd/c05e'], cwd=vlib.HARNESS, timeout=900)
+        rc, o = vlib.sh(['go', 'build', '-tags', tags, '-o', exe, './cmd/c05e'], cwd=vlib.HARNESS, timeout=1800)
         if rc != 0:
             chk.broken.append('harness cmd/c05e does not build with tags [%s]: %s' % (tags, o.strip()[-300:]))
             helpers_ok = False
             continue
         cdir = os.path.join(chk.bdir, 'cases_c05e_' + label)
-        summ, out = chk.run_harness(exe, ['-n', 150 if tier == 'quick' else 3000, '-cases', cdir], timeout=900)
+        summ, out = chk.run_harness(exe, ['-n', 150 if tier == 'quick' else 3000, '-cases', cdir], timeout=1800)
         if summ is None:
             chk.broken.append('harness cmd/c05e (%s) crashed: %s' % (label, out.strip()[-300:]))
             helpers_ok = False
@@ -89,12 +89,12 @@ def main(chk):
 
     # ---- field addressing: the offset the codec stores per field vs reflect's, and vs the model ----
     exe = os.path.join(chk.bdir, 'c05o')
-    rc, o = vlib.sh(['go', 'build', '-tags', 'verif', '-o', exe, './cmd/c05o'], cwd=vlib.HARNESS, timeout=900)
+    rc, o = vlib.sh(['go', 'build', '-tags', 'verif', '-o', exe, './cmd/c05o'], cwd=vlib.HARNESS, timeout=1800)
     if rc != 0:
         chk.broken.append('harness cmd/c05o does not build: %s' % o.strip()[-300:])
     else:
         cdir = os.path.join(chk.bdir, 'cases_c05o')
-        summ, out = chk.run_harness(exe, ['-n', 60 if tier == 'quick' else 1500, '-cases', cdir], timeout=900)
+        summ, out = chk.run_harness(exe, ['-n', 60 if tier == 'quick' else 1500, '-cases', cdir], timeout=1800)
         if summ is None:
             chk.broken.append('harness cmd/c05o crashed: %s' % out.strip()[-300:])
         else:
@@ -118,7 +118,7 @@ def main(chk):
     def build(t):
         tags = ('verif ' + t).strip()
         out = os.path.join(chk.bdir, 'c05.' + tagname(t))
-        rc, o = vlib.sh(['go', 'build', '-tags', tags, '-o', out, './cmd/c05'], cwd=vlib.HARNESS, timeout=900)
+        rc, o = vlib.sh(['go', 'build', '-tags', tags, '-o', out, './cmd/c05'], cwd=vlib.HARNESS, timeout=1800)
         with lock:
             if rc == 0:
                 exes[t] = out
